@@ -200,6 +200,36 @@ def check_C17(ctx, tier):
             'configurations; keyword order is removed by the sorter; marker objects embedded in keys have constant reprs.')
 
 
+def check_C11(ctx, tier):
+    G.rule_G_FORMS(ctx, ctx.repo)
+    G.rule_G_FIELDS(ctx, ctx.repo)
+    G.rule_G(ctx, ctx.repo, want=('G-VAL',))       # everything that is not ignored still reaches the key
+    K.rule_K_OWN(ctx, ctx.repo)                    # the decomposition of the ignore spec does not depend on earlier calls (module-level state)
+    K.rule_K_REPR(ctx, ctx.repo)                   # the substitute NULL has a constant repr
+    for d, paths in _wrappers(ctx, tier):
+        W.setup_abbrev(d)
+        W.rule_W_KEY(ctx, d, paths)                # every key computation hands state.ignore to _keygen
+        W.rule_W_RED(ctx, d)                       # a copied / pickled decorator keeps the ignore spec as given
+        W.rule_W_STATE(ctx, d, keys=('ignore',), allow_default=True)
+    RR.rule_W_KEY_keygen(ctx, ctx.repo)
+    ctx.assume("which positions/names a given spec selects for a given signature (the index/name arithmetic of _keygen) is value-level and not decided")
+    return ('Necessary conditions for "ignored arguments never influence the key, all others still do": every advertised form of the ignore '
+            'specification (index, name, \'*\', \'**\') has a handler that reaches the positional resp. keyword part of the key and substitutes a '
+            'constant marker; the key depends on every signature field needed to tell parameters from extra keywords; every argument value still '
+            'reaches the key; the decomposition does not depend on earlier calls; the decorators hand the configured spec to _keygen at every key '
+            'computation and keep it through pickling.')
+
+
+def check_C19(ctx, tier):
+    G.rule_V(ctx, ctx.repo)
+    K.rule_K_OWN(ctx, ctx.repo)                    # signature() is free of cross-call state (a memoised argspec mutated in place changes later verdicts)
+    ctx.assume("agreement of validate's individual binding checks with the interpreter (counting, partial bookkeeping) is value-level and not decided")
+    return ('Necessary conditions for "validate/isvalid agree with Python\'s binding without calling the function": every rejection is a TypeError; '
+            'validate and signature never call the inspected function and isvalid only does so in the fallback guarded by the caught error; isvalid '
+            'is True exactly when validate returned normally (False when it raised); the verdict depends on every field of the signature that the '
+            'interpreter\'s binder consults, on a partial\'s fixed arguments and on the call\'s arguments; inspection results are not shared mutable state.')
+
+
 def check_C12(ctx, tier):
     ws = _wrappers(ctx, tier)
     RR.rule_W_RND(ctx, [d for d, _ in ws])
@@ -319,7 +349,7 @@ def check_C20(ctx, tier):
 
 CHECKS = {
     'C01': check_C01, 'C02': check_C02, 'C03': check_C03, 'C04': check_C04, 'C13': check_C13, 'C14': check_C14, 'C05': check_C05, 'C06': check_C06, 'C07': check_C07,
-    'C08': check_C08, 'C09': check_C09, 'C10': check_C10, 'C17': check_C17, 'C12': check_C12, 'C15': check_C15, 'C16': check_C16, 'C18': check_C18, 'C20': check_C20,
+    'C08': check_C08, 'C09': check_C09, 'C10': check_C10, 'C11': check_C11, 'C19': check_C19, 'C17': check_C17, 'C12': check_C12, 'C15': check_C15, 'C16': check_C16, 'C18': check_C18, 'C20': check_C20,
 }
 
 
@@ -358,9 +388,28 @@ def liveness(ctx, prop, repo_root):
         else:
             ctx.ob('LIVENESS', mid, False)
             missed.append('%s (%s)' % (mid, msg))
+    # the independently seeded changes that this check reported when they were imported must still be reported
+    import json
+    seeded = importlib.import_module('seeded')
+    detp = os.path.join(os.path.dirname(st), 'seeded', 'detected.json')
+    sres = []
+    if os.path.exists(detp):
+        det = json.load(open(detp))
+        jobs = [(i, prop, repo_root or ctx.repo.root) for i, d in sorted(det.items()) if prop in d]
+        if jobs:
+            with ProcessPoolExecutor(min(16, len(jobs))) as ex:
+                sres = list(ex.map(seeded.job_seed, jobs))
+    for i, ok, msg in sres:
+        if ok is None:
+            ctx.note('seeded change %s not applicable to this tree (%s)' % (i, msg))
+        elif ok:
+            ctx.ob('LIVENESS', 'seeded %s -> %s' % (i, msg))
+        else:
+            ctx.ob('LIVENESS', 'seeded ' + i, False)
+            missed.append('seeded %s (%s)' % (i, msg))
     if missed:
         raise AnalysisError('liveness: violating variants not detected by the %s check: %s' % (prop, '; '.join(missed)))
-    ctx.sample({'liveness variants detected': [r[0] for r in results if r[1]][:10]})
+    ctx.sample({'liveness variants detected': [r[0] for r in results if r[1]][:10] + ['seeded ' + r[0] for r in sres if r[1]][:10]})
 
 
 def run(prop, tier='quick', repo_root=None):
